@@ -102,4 +102,15 @@ CHECKS = {
     text='All 891 layer assignments (11 rules x 9 option names x 9 layer combinations, file layer parsed from real [droop ...] text) are checked for effective value, recorded layers, '
          'observable effect and the Unused/Overridden header lines; ~17k statutory count pairs with junk options from caller / file / both must be identical in actions, raw snapshots, dump and winners.',
     note='The declared/forced option tables are transcribed from the rules; assignments refused with UsageError are outside the claim. Enumeration complete for the stated value sets only.'),
+ 'C19': dict(level='fault_enumeration', ref='DESIGN.md 3/C19',
+    technique='fault injection by sys.monitoring: KeyboardInterrupt raised from a LINE callback at the k-th executed line of package code during Election.count(), for every k of each swept count; renderers and prefix property checked after each',
+    text='For each swept (profile, rule, options) - at least one per rule name in the quick tier - every line event of the count (2-5 thousand per count) is used once as the interruption '
+         'point (complete enumeration for that count, ~48k injections per quick run): report(True), dump(True) and json(True) must succeed, carry the marker exactly once and the recorded '
+         'actions must be value-equal to a prefix of the uninterrupted record. A sample is driven through Droop.main with all report/dump/json combinations.',
+    note='Interruption points are statement starts in files under droop/ (pure Python: no finer grain is observable). Enumeration is exhaustive per swept count, sampled over counts.'),
+ 'C20': dict(level='exploration', ref='DESIGN.md 3/C20',
+    technique='relational runtime monitor over process histories: byte comparison of report+dump+json of a target election after random in-process histories of other elections against a reference rendered in a fresh subprocess; recount of the same profile object',
+    text='~900 targets x 6 histories per quick run (1-12 earlier elections of all rules/arithmetics, biased to end on the target\'s arithmetic class with different precision/guard/display, '
+         'incl. equal precision+guard sums with different splits, guard 0, display above precision): renderings must equal the fresh-process reference byte for byte; the same profile object recounted must reproduce itself.',
+    note='Scope as in the property: each election is constructed, counted and rendered before the next is constructed.'),
 }
